@@ -61,7 +61,7 @@ def rule_regex(ctx):
 
 # the parser's class lookup must not depend on what was parsed before (a corrupt element may not poison later valid ones)
 # C02.TRUTHY: a valid message behind (or between) garbage is not itself taken for garbage
-IMPORTS = [('C03', 'C03.READ'), ('C13', 'C13.UNKNOWN'), ('C02', 'C02.TRUTHY'), ('C02', 'C02.E2E')]  # C02.E2E: junk before / between / after valid messages, unclosed junk beyond the threshold
+IMPORTS = [('C03', 'C03.READ'), ('C13', 'C13.UNKNOWN'), ('C02', 'C02.TRUTHY'), ('C02', 'C02.E2E'), ('C02', 'C02.LOOP')]  # C02.E2E: junk before / between / after valid messages, unclosed junk beyond the threshold
 
 EXPLANATION = EXPLANATION + " When a buffer is not organised into the helper roles (scan / resynchroniser / frontal drop) through which the symbolic rules extend over all inputs, those rules are decided on an end-to-end catalogue instead and say so: Buffer.process as a whole is evaluated on 30 constant buffer contents x 3 thresholds (valid messages, junk before/between/after, unknown and partial elements, unclosed junk beyond the threshold, quotes and '>' in text, multi-line spellings) and compared with a reference written from the property."
 
